@@ -339,3 +339,8 @@ Proof.
     + destruct (c03_poll r s) as [o s1]. rewrite IH. cbn [app]. rewrite app_nil_r. reflexivity.
   - cbn [c03_run_split without_splits]. rewrite c03_split_id. apply IH.
 Qed.
+
+(* ---------- a non-contiguous transport buffer enters the receive buffer whole ---------- *)
+From H3V Require Import Gen.GenBufList.
+Lemma pushed_is_whole segments : pushed segments = concat segments.
+Proof. unfold pushed. change push_bytes_copies_whole_buffer with true. reflexivity. Qed.
